@@ -2,9 +2,12 @@
 """Regenerates /verif/MANIFEST.json from the table below (keeps it valid and in one place)."""
 import json, subprocess
 
-HOOK_COMMITS = []  # filled in as hook commits are made in /repo
+HOOK_COMMITS = ["2d93e58"]  # filled in as hook commits are made in /repo
 
 CHECKS = {
+ "C07": dict(cat="exploration", technique="runtime monitoring of concurrent executions: client-boundary invoke/response histories checked offline with porcupine against a bitmask set model, Go race detector on the same workloads, shared-options snapshots, channel-closed observation, all-blocked/hard watchdog",
+   text="Sampled schedules: hundreds (quick) to thousands (thorough) of short histories (6-10 clients x 4-6 operations) on one graph and on the store's graph registry, under GOMAXPROCS 2/4/16 with yield hooks in AddTriples/RemoveTriples; concurrent BQL statements through the planner; a drain+Exist+writer probe; everything repeated under -race.",
+   note="Schedules are sampled, not enumerated; porcupine timeouts (30 s) are inconclusive; RemoveTriples is modelled as k single removals sharing the call interval, AddTriples as atomic.", ref="DESIGN.md §5 C07, Appendix C"),
  "C20": dict(cat="fault_enumeration", technique="runtime fault injection through a pure storage.Store/Graph implementation: per statement every observed driver call position x failure mode is executed while monitors watch Execute's return values, completion and surviving goroutines; race detector on the same workload",
    text="Complete over (call position x mode) for each statement of the corpus (28 hand-picked statements covering every driver entry point, + generated ones; ~2 k runs quick, ~30 k thorough), directly and with the memoizer stacked between planner and failing store.",
    note="A planned fault that does not fire (call order varies with scheduling / caching) is inconclusive, counted, never a pass; the wrapper is a well-formed driver (closes its channel once, then returns the error).", ref="DESIGN.md §5 C20"),
